@@ -579,13 +579,13 @@ def gen_store_case(meta, seed, i, size, depth, stats, twins=False):
     import aasgen
     from basyx.aas import model
     rng = case_rng(seed, "store", i)
-    g = aasgen.Gen(rng, depth=depth, strings=rng.choice(["xml", "xml", "json", "plain"]))
+    g = aasgen.Gen(rng, depth=depth, strings=rng.choice(["xml", "xml", "json", "plain"]), wide_lists=True)
     st = g.store(size)
     for o in st:
         sanitise(meta, o, stats)
     if twins:
         rng2 = case_rng(seed, "store", i)
-        g2 = aasgen.Gen(rng2, depth=depth, strings=rng2.choice(["xml", "xml", "json", "plain"]))
+        g2 = aasgen.Gen(rng2, depth=depth, strings=rng2.choice(["xml", "xml", "json", "plain"]), wide_lists=True)
         both = list(st)
         for o in g2.store(size):
             sanitise(meta, o, {})
@@ -608,7 +608,7 @@ def gen_single_case(meta, seed, i, depth, stats, cls=None):
     from basyx.aas import model
     rng = case_rng(seed, "single", i)
     cname = cls or rng.choice(SINGLE_GEN + ["ValueReferencePair"])
-    g = aasgen.Gen(rng, depth=depth, strings=rng.choice(["xml", "xml", "json", "plain"]))
+    g = aasgen.Gen(rng, depth=depth, strings=rng.choice(["xml", "xml", "json", "plain"]), wide_lists=True)
     if cname == "ValueReferencePair":
         obj = model.ValueReferencePair(g.text(2000), g.ref())
     elif cname == "ValueList":
